@@ -326,6 +326,7 @@ static void matrix_case(uint64_t i, vf::Rng& r, const char* cfg) {
   }
 }
 
+#ifndef VF_FUZZ_TARGET
 int main(int argc, char** argv) {
   for (int i = 1; i + 1 < argc; i++)
     if (std::string(argv[i]) == "--prop") g_prop = argv[i + 1];
@@ -344,3 +345,4 @@ int main(int argc, char** argv) {
   S.push_back({"generated_pairs_ledger", 100000, 3000000, [](uint64_t, vf::Rng& r) { c_track.add(); su::ledger_reset(); one_case<su::TrackDoc>(r, "ledger", true); }});
   return vf::run(argc, argv, S);
 }
+#endif  // VF_FUZZ_TARGET
